@@ -28,17 +28,22 @@ const P = 10 * time.Second
 const eps = time.Millisecond
 
 type cfg struct {
-	KeepAlive  bool
-	MaxRetries uint32
-	Depth      int
+	KeepAlive   bool
+	MaxRetries  uint32
+	Depth       int
 	SendMayFail bool // the ping cannot always be written
+	Split       bool // a pong is two events: its arrival (received message) and, later, the run of the ping's callback (receive queue delay)
 }
 
 func (c cfg) String() string {
 	if !c.KeepAlive {
 		return fmt.Sprintf("inactivity-monitor period=%v depth=%d", P, c.Depth)
 	}
-	return fmt.Sprintf("keep-alive maxRetries=%d period=%v depth=%d ping-send-may-fail=%v", c.MaxRetries, P, c.Depth, c.SendMayFail)
+	sp := ""
+	if c.Split {
+		sp = " pong-arrival-and-callback-separate"
+	}
+	return fmt.Sprintf("keep-alive maxRetries=%d period=%v depth=%d ping-send-may-fail=%v%s", c.MaxRetries, P, c.Depth, c.SendMayFail, sp)
 }
 
 var deltas = []time.Duration{P / 2, P - eps, P + eps, 2*P + eps}
@@ -61,8 +66,10 @@ func scenario(c cfg) *mcx.Scenario {
 				type ping struct {
 					pong      func()
 					cancelled bool
+					arrived   bool
 				}
 				var pings []*ping
+				var queued []int
 				sendFailed := false
 				var mon *inactivity.Monitor[*fakeConn]
 				if c.KeepAlive {
@@ -90,8 +97,36 @@ func scenario(c cfg) *mcx.Scenario {
 					if c.KeepAlive {
 						n += 2
 					}
+					if c.Split {
+						n++
+					}
 					k := vrt.Choose(n, nil)
 					switch {
+					case c.Split && k == n-1:
+						// the callback of the oldest pong that has arrived but was not dispatched yet runs now
+						if len(queued) == 0 {
+							hist = append(hist, "callback(none)")
+							continue
+						}
+						g := queued[0]
+						queued = queued[1:]
+						hist = append(hist, fmt.Sprintf("callback(%d)", g+1))
+						pings[g].pong()
+						if g == len(pings)-1 {
+							fails = 0 // the current ping is answered
+						} // a late answer to an earlier ping is not credited to a later one
+					case c.Split && c.KeepAlive && k >= 2+len(deltas):
+						g := len(pings) - 1 - (k - (2 + len(deltas)))
+						if g < 0 || pings[g].arrived {
+							hist = append(hist, "pong-arrives(none)")
+							continue
+						}
+						hist = append(hist, fmt.Sprintf("pong-arrives(%d)", g+1))
+						pings[g].arrived = true
+						queued = append(queued, g)
+						mon.Notify() // the datagram is a received message now; its callback runs when it is dispatched
+						last = vrt.Now()
+						fails = 0
 					case k == 0:
 						hist = append(hist, "recv")
 						mon.Notify()
@@ -183,6 +218,7 @@ func main() {
 	for _, n := range []uint32{0, 1, 2, 3} {
 		scs = append(scs, scenario(cfg{KeepAlive: true, MaxRetries: n, Depth: d}))
 		scs = append(scs, scenario(cfg{KeepAlive: true, MaxRetries: n, Depth: d - 1, SendMayFail: true}))
+		scs = append(scs, scenario(cfg{KeepAlive: true, MaxRetries: n, Depth: d, Split: true}))
 	}
 	addConnLevel(r, &scs)
 	addServerLevel(r, &scs)
